@@ -1,0 +1,11 @@
+//go:build verif
+
+package allocator
+
+// VerifLock and VerifUnlock let the verification harness hold the allocator's write lock while it
+// starts concurrent callers, so that all of them are parked on the lock before any of them runs and
+// their critical sections then execute back to back in an order chosen by the runtime.
+func (a *Allocator) VerifLock() { a.allocLk.Lock() }
+
+// VerifUnlock releases the lock taken by VerifLock.
+func (a *Allocator) VerifUnlock() { a.allocLk.Unlock() }
